@@ -1,24 +1,74 @@
-(* C03 -- Recovery always restores a fully usable, writable WAL.
-   INTERIM file: the full statement is `crash_refinement_stmt` of Wal/Hist.v
-   (all histories of calls, power losses at any I/O boundary with any adversary
-   choice, nested crashes inside recovery, reopen cycles; see its comment for how
-   it covers C03).  Its proof is in progress; until it lands only the fragments
-   below are proved and the property is otherwise carried by the executable
-   acceptance predicate `hist_run`/`hs_ok` (evaluated on random histories of
-   the model on every run) and by the crash-image enumeration on the
-   implementation (stream `crash`). *)
-From RW Require Import Base.Bytes Fmt.Codec Fmt.Frame Wal.Model Wal.Spec Wal.Hist Wal.BasicFacts.
+(* C03 -- Recovery restores a usable, writable WAL.
+   Only statements here; proofs in Wal/Crash*.v.  Histories, guards and the crash
+   adversary are described in Props/C01.v.  Every crash point is covered BY PROOF. *)
+From RW Require Import Base.Bytes Fmt.Codec Fmt.Frame Wal.Model Wal.Spec Wal.Hist
+  Wal.CrashInv Wal.CrashCalls10 Wal.CrashThm Wal.CrashExamples Wal.CrashExamplesFacts.
 Open Scope N_scope.
 
-(* the full statement (not yet a theorem) *)
-Definition C03_full_statement : Prop := crash_refinement_stmt.
+Theorem C03_crash_refinement : crash_refinement_stmt.
+Proof. exact crash_refinement. Qed.
+Print Assumptions C03_crash_refinement.
 
-(* proved fragment: Open of an empty directory succeeds for every admissible
-   configuration and yields an empty, consistent WAL *)
-Theorem C03_first_open_succeeds_partial :
-  forall c, cfg_ok c ->
-  exists w e, open_wal c fresh_env = (OOk w, e) /\ abs w (e_disk e) = sl_empty /\
-              dir_exact (e_disk e) = true /\ dk_stable (e_disk e) = [] /\
-              first_index (st_segs w) (st_tail w) = 0 /\ last_index (st_segs w) (st_tail w) = 0.
-Proof. exact first_open. Qed.
-Print Assumptions C03_first_open_succeeds_partial.
+(* Open succeeds on EVERY directory state a crash can leave behind: after any history of
+   calls and crashes at any I/O boundary (also of Open itself, nested to any depth) with
+   any adversary choice, [open_wal] returns a WAL, not an error. *)
+Theorem C03_open_total :
+  forall c steps d,
+    (cfg_ok c /\ Forall hstep_wf steps /\ short_enough steps) ->
+    hs_mode (hist_run c hist_init steps) = Down d ->
+    exists w e, open_wal c (env_of d) = (OOk w, e) /\
+      ({| sp_log := abs w (e_disk e); sp_kv := dk_stable (e_disk e) |} = hs_acked (hist_run c hist_init steps) \/
+       {| sp_log := abs w (e_disk e); sp_kv := dk_stable (e_disk e) |} = hs_may (hist_run c hist_init steps)) /\
+      dir_exact (e_disk e) = true /\ Forall not_fail (e_acts e).
+Proof. exact recovery_after_any_history. Qed.
+Print Assumptions C03_open_total.
+
+(* ... and the WAL accepts StoreLogs at LastIndex+1 (any index when empty) ... *)
+Theorem C03_writable :
+  forall c steps s l,
+    (cfg_ok c /\ Forall hstep_wf (steps ++ [HOp (OStore [l])]) /\ short_enough (steps ++ [HOp (OStore [l])])) ->
+    hs_mode (hist_run c hist_init steps) = Up s ->
+    sl_is_empty (sp_log (hs_acked (hist_run c hist_init steps))) = true \/
+    l_index l = spec_last (sp_log (hs_acked (hist_run c hist_init steps))) + 1 ->
+    fst (step_model c s (OStore [l])) = ROk.
+Proof. exact writable_after_any_history. Qed.
+Print Assumptions C03_writable.
+
+(* ... and EVERY call (StoreLogs, DeleteRange, GetLog, First/LastIndex, stable Set/Get,
+   Close+Open) issued after any history -- any number of crashes and recoveries -- returns
+   the result class the contiguous-log spec prescribes and leaves exactly the spec's
+   state (so its effects are again durable by C01). *)
+Theorem C03_every_call_matches_spec :
+  forall c steps s o,
+    (cfg_ok c /\ Forall hstep_wf (steps ++ [HOp o]) /\ short_enough (steps ++ [HOp o])) ->
+    hs_mode (hist_run c hist_init steps) = Up s ->
+    res_class (fst (step_model c s o)) = fst (step_spec (hs_acked (hist_run c hist_init steps)) o) /\
+    {| sp_log := abs (ss_wal (snd (step_model c s o))) (e_disk (ss_env (snd (step_model c s o))));
+       sp_kv := dk_stable (e_disk (ss_env (snd (step_model c s o)))) |}
+    = snd (step_spec (hs_acked (hist_run c hist_init steps)) o).
+Proof. exact every_call_matches_spec. Qed.
+Print Assumptions C03_every_call_matches_spec.
+
+(* ---- non-vacuity --------------------------------------------------------------------
+   A: the sealing append is on disk, the rotation's metadata commit is not (the defect
+      "sealed tail recovered, StoreLogs fails forever" of the pinned code): Open completes
+      the rotation and index 3 is appended.
+   B: the rotation's commit is on disk, the new tail file is not: Open re-creates it.
+   F: nested crashes: at the start of Open; inside Open right after it re-created the
+      tail file (lost again, or kept); then Open, StoreLogs, Close+Open, GetLog. *)
+Example C03_ex_guards :
+  hist_ok cfg128 hist_rotation_before_commit /\ hist_ok cfg128 hist_rotation_after_commit /\ hist_ok cfg128 hist_nested.
+Proof. exact (conj hist_rotation_before_commit_ok (conj hist_rotation_after_commit_ok hist_nested_ok)). Qed.
+Example C03_ex_interrupted_rotation :
+  final_ok cfg128 hist_rotation_before_commit = true /\
+  crash_shape cfg128 (firstn 4 hist_rotation_before_commit) = ([(1, false)], [((1, 0), true)]) /\
+  final_last cfg128 hist_rotation_before_commit = 3 /\
+  final_ok cfg128 hist_rotation_after_commit = true /\
+  crash_shape cfg128 (firstn 4 hist_rotation_after_commit) = ([(1, true); (3, false)], [((1, 0), true)]) /\
+  final_last cfg128 hist_rotation_after_commit = 3.
+Proof. vm_compute. repeat split; reflexivity. Qed.
+Example C03_ex_nested :
+  final_ok cfg128 hist_nested = true /\ final_last cfg128 hist_nested = 3 /\
+  crash_shape cfg128 (firstn 6 hist_nested) = ([(1, true); (3, false)], [((1, 0), true)]) /\
+  crash_shape cfg128 (firstn 7 hist_nested) = ([(1, true); (3, false)], [((1, 0), true); ((3, 1), false)]).
+Proof. vm_compute. repeat split; reflexivity. Qed.
